@@ -54,7 +54,8 @@ def fft_register_offset(a: np.ndarray, b: np.ndarray) -> tuple[int, ...]:
     a = np.pad(a, np.stack((np.zeros(a.ndim, dtype=int), s - a.shape), axis=1))
     b = np.pad(b, np.stack((np.zeros(b.ndim, dtype=int), s - b.shape), axis=1))
 
-    xcorr = np.fft.irfftn(np.fft.rfftn(a) * np.fft.rfftn(b).conj())
+    # pass the shape, the default output is one short when the last axis is odd
+    xcorr = np.fft.irfftn(np.fft.rfftn(a) * np.fft.rfftn(b).conj(), s=s)
     xcorr = np.fft.fftshift(xcorr)
 
     return np.unravel_index(np.argmax(xcorr), xcorr.shape) - np.array(xcorr.shape) // 2
